@@ -35,6 +35,12 @@ CLAIMS = {
        "Tie: 300k conversions through H2 vs model and an i128 oracle; API histories setting random CLSIDs/state words/extreme times on storages, root and streams with listings and reopen in both modes (O+D); clock-reading bounds checked on the implementation at every create_storage.",
   note="SystemTime modelled as (i64 s, u32 ns) as on 64-bit Linux. 'Survives reopening' rests on lock-step (reopen inside histories) until the reader model's codec theorems (C02). Trusted base as C01.",
   design="§3 C17"),
+ "C07": dict(
+  technique="Lean 4 proofs on the composed directory + handle model (slot stability as frame property of the path map, freshness of allocated slots by a counting argument, frame of handle writes by slot) + lock-step of multi-handle histories at result, directory-table and handle-state level, with a slot-binding oracle on the implementation",
+  text="Proof: CfbVerif.Props.C07 — removal (incl. the two-children case) and creation leave every other path's entry, slot included, unchanged (C07_slot_stable_remove/create from C01's frame theorems over the library's predecessor-relinking removal), a new entry never takes a used slot (C07_fresh_slot), a handle operation rewrites only the bytes in its slot (C07_handle_frame) and is the C06 byte-vector machine on them (C07_handle_is_C06). "
+       "Tie: histories with up to 4 handles interleaved with removals of siblings with two children, slot-reusing creations, overwrites, resizes across 4096; compared after every call at levels O, D (hook H3) and H (all window fields of all handles); the harness checks stream_id = slot of the path on the implementation (binding oracle).",
+  note="Same-stream double handles and use-after-removal are out of scope. Content below the entry (sectors) is lock-step only. Trusted base as C01/C06.",
+  design="§3 C07"),
 }
 
 def main():
